@@ -166,6 +166,22 @@ func genQuads(t *rapid.T) []quadIn {
 				q.C[k] = b + q.E[k]
 			}
 		}
+		// one quad in six shares an edge (and the level) with an earlier quad but has another extent:
+		// the two merge, and the averaged footprint's edge is the same number only up to rounding -
+		// it must still fall inside the grid and into the cells it is registered in
+		if len(out) > 0 && uni(t, "shared_edge", 6) == 0 {
+			o := out[uni(t, "shared_with", len(out))]
+			k := []int{0, 2}[uni(t, "shared_axis", 2)]
+			q.C[1] = o.C[1]
+			q.C[0], q.C[2] = o.C[0], o.C[2] // the vertical probe at the new centre must hit the earlier plane
+			if uni(t, "shared_side", 2) == 0 {
+				edge := o.C[k] - o.E[k]
+				q.C[k] = edge + q.E[k]
+			} else {
+				edge := o.C[k] + o.E[k]
+				q.C[k] = edge - q.E[k]
+			}
+		}
 		for _, k := range []int{0, 2} {
 			if q.C[k] > 64 {
 				q.C[k] = 64
